@@ -58,7 +58,7 @@ const char *rsv_class_names[RSV_NCLS] = {
     [K_NET_DELAYED] = "network_messages_delayed", [K_NET_OVERTAKES] = "network_stream_overtakes", [K_NET_TEST_SKIPPED] = "collective_completions_delayed",
     [K_NET_LEFTOVER] = "network_messages_never_received", [K_CROSS_RANK_REF] = "runs_with_several_ranks", [K_PRESET_TICK] = "preset_tick_chains",
     [K_PRESET_CASCADE] = "preset_cancelled_cascade_is_minimum",
-    [K_GVT_BOUND_BY_ANTI] = "gvt_values_equal_to_a_just_extracted_anti_message", [K_ENDLESS] = "endless_models"};
+    [K_GVT_BOUND_BY_ANTI] = "gvt_values_equal_to_a_just_extracted_anti_message", [K_ENDLESS] = "endless_models", [K_STATELESS_LPS] = "lps_without_state_pointer"};
 
 struct rt_ctx RT;
 static char PROP[8] = "C01";
@@ -227,6 +227,11 @@ static void decode_spec(struct tape *t, struct gm_spec *g)
 		if(g->goal[g->stop_lp] && g->stop_at >= g->goal[g->stop_lp])
 			g->stop_at = g->goal[g->stop_lp] - (g->goal[g->stop_lp] > 1);
 	}
+	/* "router" LPs that never call SetState (no tape byte, derived from the model seed; only for properties without saved
+	 * whole-runtime tapes): the library generator is their only rollbackable state */
+	if(!strcmp(PROP, "C09") || !strcmp(PROP, "C05") || !strcmp(PROP, "C01") || !strcmp(PROP, "C03") || !strcmp(PROP, "C02"))
+		for(unsigned i = 1; i < g->n_lps; i++)
+			g->stateless[i] = ((g->seed >> (i % 20)) & 7) == 5 && (g->seed & 3) != 0;
 	/* C08 liveness family (no tape byte, so that saved tapes keep their meaning): about one non-stopped case in five is
 	 * "endless" - LPs never freeze, heartbeats never stop - so the run returns only because termination detection ends it */
 	if(c08 && g->stop_lp < 0 && !g->victim_nohb && !RT.free_mode && g->seed % 5 == 3) {
@@ -413,7 +418,10 @@ int rsv_case(const uint8_t *tape, size_t len, struct rsv_result *res)
 	rsv_sample(res, "lps=%u seed=%llu time=%u la=%u zd=%u sp=%u dest=%u pl=%u rules=%u hb=%u chain=%u/%u post=%u%s relay=%u goals=[", g->n_lps, (unsigned long long)g->seed,
 	    g->time_mode, g->lookahead_mode, g->zero_delay, g->send_prob, g->dest_mode, g->payload_mode, g->n_rules, g->hb_scale, g->chain_len, g->chain_start, g->post_goal, g->endless ? "(endless)" : "", g->relay_budget);
 	for(unsigned i = 0; i < g->n_lps && i < 12; i++)
-		rsv_sample(res, "%s%u%s", i ? "," : "", g->goal[i], g->t0_zero[i] ? "@0" : "");
+		if(g->stateless[i])
+			rsv_sample(res, "%srouter", i ? "," : "");
+		else
+			rsv_sample(res, "%s%u%s", i ? "," : "", g->goal[i], g->t0_zero[i] ? "@0" : "");
 	rsv_sample(res, "] stop=(%d,%u) | ranks=%u net=%u/%u/%u/%u | %s thr=%u ckpt=%u gvt=%u tt=%g bind=%d stats=%d seed=%llu | sched seed=%llu sw=%u burst=%u/%u hot=%#x div=%u batch=%u | ref ev=%zu",
 	    g->stop_lp, g->stop_at, c->ranks, c->net_delay_max, c->net_delay_prob, c->net_test_skip, c->net_reorder, c->serial ? "serial" : c->mode == RSV_MODE_DET ? "DET" : "FREE", c->n_threads, c->ckpt_interval,
 	    c->gvt_period, c->termination_time, c->core_binding, c->stats, (unsigned long long)c->prng_seed,
@@ -439,6 +447,8 @@ int rsv_case(const uint8_t *tape, size_t len, struct rsv_result *res)
 	res->cls[c->serial ? K_RUNS_SERIAL : c->mode == RSV_MODE_DET ? K_RUNS_DET : K_RUNS_FREE] = 1;
 	res->cls[K_THREADS_GT_LPS] = !c->serial && c->n_threads * c->ranks > g->n_lps;
 	res->cls[K_ENDLESS] = g->endless;
+	for(unsigned i = 0; i < g->n_lps; i++)
+		res->cls[K_STATELESS_LPS] += g->stateless[i];
 	res->cls[K_PRESET_TICK] = RT.preset == 1;
 	res->cls[K_PRESET_CASCADE] = RT.preset == 2;
 	int rc = 0;
